@@ -9,6 +9,7 @@
 
 mod exec;
 mod util;
+mod verdict;
 
 use serde_json::{json, Value};
 use std::collections::BTreeMap;
@@ -29,6 +30,7 @@ fn main() {
     let code = match args[1].as_str() {
         "replay" => cmd_replay(&args[2..]),
         "exec-one" => cmd_exec_one(&args[2..]),
+        "verdicts" => cmd_verdicts(&args[2..]),
         other => {
             eprintln!("unknown command {other}");
             2
@@ -201,4 +203,46 @@ fn cmd_exec_one(args: &[String]) -> i32 {
         exec::Judgement::Known(k, r) => { println!("verdict: known finding {k}: {r}"); 0 }
         exec::Judgement::Fail(r) => { println!("verdict: DISAGREES: {r}"); 1 }
     }
+}
+
+/// rv verdicts --cases F --report OUT: replay TLC-generated verdict records (C06, C05).
+fn cmd_verdicts(args: &[String]) -> i32 {
+    let cases_path = arg(args, "--cases").expect("--cases");
+    let report_path = arg(args, "--report").expect("--report");
+    let recs = read_ndjson(cases_path);
+    let results = run_isolated(&recs, 60000, verdict::run_verdict);
+    let mut pass = 0u64;
+    let mut nfail = 0u64;
+    let mut fails = Vec::new();
+    let mut accepted = 0u64;
+    let mut executed = 0u64;
+    let mut samples = Vec::new();
+    for (rec, r) in recs.iter().zip(results.iter()) {
+        let (bad, obs) = match r {
+            ChildResult::Done(v) => (verdict::judge_verdict(rec, v), v.clone()),
+            ChildResult::Signal(s) => (vec![format!("process killed by signal {s} while loading/running")], json!({"signal": s})),
+            ChildResult::Timeout => (vec!["timeout while loading/running".to_string()], json!({"timeout": true})),
+            ChildResult::Exit(c) => (vec![format!("process exited {c}")], json!({"exit": c})),
+        };
+        if rec["accept"] == json!(true) {
+            accepted += 1;
+        }
+        executed += arr(&obs["runs"]).iter().filter(|x| x.as_str().map(|s| s != "rejected").unwrap_or(false)).count() as u64;
+        if bad.is_empty() {
+            pass += 1;
+            if samples.len() < 3 {
+                samples.push(json!({"record": rec, "observed": obs}));
+            }
+        } else {
+            nfail += 1;
+            if fails.len() < 300 {
+                fails.push(json!({"record": rec, "observed": obs, "reason": bad.join(" | ")}));
+            }
+        }
+    }
+    let report = json!({"records": recs.len(), "pass": pass, "fail": nfail, "spec_accepts": accepted,
+                        "interpreter_runs": executed, "failures": fails, "samples": samples});
+    std::fs::write(report_path, serde_json::to_string(&report).unwrap()).unwrap();
+    println!("verdicts: {} records, {} pass, {} fail, {} accepted by the specification, {} interpreter runs", recs.len(), pass, nfail, accepted, executed);
+    0
 }
